@@ -224,6 +224,25 @@ def handle (j : Json) : R Json := do
         | .error e => err := encErr e
       out := out.push (obj [("err", err), ("states", view procs)])
     .ok (obj [("steps", Json.arr out)])
+  | "calupdate" =>
+    let det ← decTree (← fld j "det")
+    let cfg ← decCfg (← fld j "cfg")
+    let probes ← asList (asList asStr) (← fld j "probes")
+    let vars ← asList (fun e => match e with
+      | .arr #[k, w] => do pure ((← asList asStr k), (← asOpt asNat w))
+      | _ => throw "var: expected [key, width|null]") (← fld j "vars")
+    let xs ← asList decVal (← fld j "xs")
+    let t := decorate (← decExtras j) (processorTree det cfg)
+    let acc : Nat → Val → Except Err Unit := fun _ _ => .ok ()
+    match calUpdate PyxelModel.Generated.C08.setIsStrict acc t vars xs with
+    | .ok t' => .ok (obj [("ok", Json.bool true), ("after", ofList (fun p => encRes encSub (getP t' p)) probes)])
+    | .error e => .ok (obj [("err", encErr e)])
+  | "override" =>
+    let el ← asStr (← fld j "element")
+    match parseOverride el.toList with
+    | .error e => .ok (obj [("err", encErr e)])
+    | .ok (k, v) =>
+      .ok (obj [("key", Json.str (String.ofList k)), ("value", encRes encVal (evalEntryPy (String.ofList v)))])
   | "validate" =>
     let det ← decTree (← fld j "det")
     let cfg ← decCfg (← fld j "cfg")
